@@ -213,7 +213,10 @@ def report_failure(r, runner, cid, ctx, prog, detail):
 def run(r):
     r.rule = ("typed random programs of the core fragment (depth <= 6, <= 40 nodes incl. ill-typed slots) x random contexts of "
               "ints/strings/bools/none/lists/pairs/maps; quick 3000, thorough 100000 programs + corpus; a case is non-trivial "
-              "when it is distinct and contains at least one control construct")
+              "when it is distinct and contains at least one control construct; every generated program is also run through one of 7 other "
+              "entry forms (top level of a child template of a layout that prints its assignments / calls its macros / renders an overridden block; "
+              "module for from-import and import-as; include; render_captured + render_block / call_macro; Expression API) against the "
+              "reference semantics 'run P discarding its output, then the tail in the same top-level scope'")
     r.assumptions = [
         "programs deeper than 6 / larger than 40 nodes behave compositionally like the sampled ones (proved for the reference interpreter's laws, sampled for the engine)",
         "macro defaults do not refer to sibling parameters; no recursion; macro values are only called, never stored (generator restrictions, see final report)",
@@ -273,13 +276,15 @@ def run(r):
         else:
             r.hist["proved_fragment"]["outside"] += 1
         # ---- stage 2 streams: model code generator vs real instruction stream, model VM vs engine / exec
-        if modelcode != "oof" and realcode != "-":
-            ncode += 1
-            if modelcode != realcode:
-                ra, rb = realcode[6:-1].split(") ("), modelcode[6:-1].split(") (")
-                k = next((k for k, (x, y) in enumerate(zip(ra, rb)) if x != y), min(len(ra), len(rb)))
-                r.model_disagreement(f"codegen\t{ctx}\t{prog}", f"instr {k}: {ra[k] if k < len(ra) else 'END'} [source: {src}]",
-                                     f"instr {k}: {rb[k] if k < len(rb) else 'END'}")
+        if modelcode != "oof":
+            # (wrapper cases run several templates: there is no single real instruction stream)
+            if realcode != "-":
+                ncode += 1
+                if modelcode != realcode:
+                    ra, rb = realcode[6:-1].split(") ("), modelcode[6:-1].split(") (")
+                    k = next((k for k, (x, y) in enumerate(zip(ra, rb)) if x != y), min(len(ra), len(rb)))
+                    r.model_disagreement(f"codegen\t{ctx}\t{prog}", f"instr {k}: {ra[k] if k < len(ra) else 'END'} [source: {src}]",
+                                         f"instr {k}: {rb[k] if k < len(rb) else 'END'}")
             if vmres != "-" and mres != "err:OUT-OF-FRAGMENT":
                 nvm += 1
                 cls = lambda x: x if x.startswith("ok:") else "err"
@@ -323,7 +328,7 @@ def run(r):
             else:
                 r.oracle_failure(f"{ctx}\t{prog}", detail + f" [source: {src}] (found as {cid}, not shrunk)",
                                  "unshrunk:" + "+".join(sorted(kinds_of(sx_parse(prog), set()))))
-        if len(r.samples) < 8 and kinds and cid.startswith("g") and int(cid[1:]) % 400 == 7:
+        if len(r.samples) < 8 and kinds and cid.startswith("g") and cid[1:].isdigit() and int(cid[1:]) % 400 == 7:
             r.sample({"source": src, "ctx": ctx, "engine": show(impl), "spec": show(mres)})
     r.extra["programs_in_proved_fragment"] = nfrag
     r.extra["codegen_streams_compared"] = ncode
